@@ -279,3 +279,135 @@ def run_case(sc: Dict[str, Any]) -> Outcome:
 
 
 SELFTEST_CASES = []
+
+
+# ---------------------------------------------------------------- histories: the middleware stack changes while the worker lives
+#
+# "for the broker's middleware stack": the stack is whatever has been registered (add_middlewares / with_middlewares) by the time a
+# hook is due - a middleware registered after the worker already processed messages takes part from then on, in registration order.
+# Generated histories of operations on ONE broker + ONE receiver: send-and-process a message (succeeding / failing / no-result) and
+# register a further middleware (a generated subset of hooks, sync or async).  Oracle = the list model of the stack.
+
+HOOKSET = ("pre_send", "post_send", "pre_execute", "on_error", "post_execute", "post_save")
+
+
+def history_cases() -> Any:
+    mw = st.fixed_dictionaries({"hooks": st.sets(st.sampled_from(HOOKSET), min_size=1, max_size=6).map(sorted), "async": st.booleans(),
+                                "via": st.sampled_from(["add_middlewares", "add_middlewares", "with_middlewares"])})
+    op = st.one_of(st.tuples(st.just("msg"), st.sampled_from(["ok", "ok", "fail", "nores"])).map(list),
+                   st.tuples(st.just("msg"), st.sampled_from(["ok", "fail"])).map(list),
+                   st.tuples(st.just("add"), mw).map(list))
+    return st.fixed_dictionaries({"history": st.just(True), "initial": st.lists(mw, max_size=2), "ops": st.lists(op, min_size=2, max_size=9)})
+
+
+def run_history(c: Dict[str, Any]) -> Outcome:
+    from taskiq import AsyncBroker, TaskiqMiddleware
+    from taskiq.brokers.inmemory_broker import InmemoryResultBackend
+    from taskiq.exceptions import NoResultError
+
+    out = Outcome()
+    out.clauses_checked = ["C10.a", "C10.b"]
+    log: List[Any] = []
+
+    class QB(AsyncBroker):
+        def __init__(self) -> None:
+            super().__init__()
+            self.q: List[Any] = []
+
+        async def kick(self, m: Any) -> None:
+            log.append(("kick", None))
+            self.q.append(m)
+
+        async def listen(self):  # type: ignore[override]
+            yield b""
+
+    def make_mw(idx: int, spec: Dict[str, Any]) -> Any:
+        ns: Dict[str, Any] = {}
+        for h in spec["hooks"]:
+            def mk(h: str = h) -> Any:
+                if spec["async"]:
+                    async def f(self: Any, *a: Any, **k: Any) -> Any:
+                        log.append((h, idx))
+                        return a[0] if h in ("pre_send", "pre_execute") else None
+                else:
+                    def f(self: Any, *a: Any, **k: Any) -> Any:  # type: ignore[misc]
+                        log.append((h, idx))
+                        return a[0] if h in ("pre_send", "pre_execute") else None
+                return f
+            ns[h] = mk()
+        return type(f"HistMW{idx}", (TaskiqMiddleware,), ns)()
+
+    stack: List[Any] = []     # model: (idx, spec) in registration order
+    nmsg = 0
+    late = False
+
+    async def go() -> None:
+        nonlocal nmsg, late
+        b = QB()
+        b.result_backend = InmemoryResultBackend()
+
+        async def t(kind: str) -> Any:
+            log.append(("task", None))
+            if kind == "fail":
+                raise ValueError("boom")
+            if kind == "nores":
+                raise NoResultError()
+            return 1
+
+        t.__module__ = __name__
+        b.register_task(t, task_name="hist.t")
+        for spec in c["initial"]:
+            idx = len(stack)
+            stack.append((idx, spec))
+            b.add_middlewares(make_mw(idx, spec))
+        r = Receiver(b, max_async_tasks=3, run_startup=False)
+        for op, arg in c["ops"]:
+            if op == "add":
+                idx = len(stack)
+                stack.append((idx, arg))
+                if arg["via"] == "with_middlewares":
+                    b.with_middlewares(make_mw(idx, arg))
+                else:
+                    b.add_middlewares(make_mw(idx, arg))
+                late = late or nmsg > 0
+                continue
+            del log[:]
+            nmsg += 1
+            await AsyncKicker("hist.t", b, {}).with_task_id(f"H{nmsg}").kiq(arg)
+            try:
+                await r.callback(b.q.pop(0).message)
+            except BaseException as e:  # noqa: BLE001
+                out.add("C10.b", f"message #{nmsg}: processing raised {type(e).__name__}: {e}")
+                return
+
+            def ov(h: str) -> List[Any]:
+                return [(h, i) for i, s in stack if h in s["hooks"]]
+
+            exp = ov("pre_send") + [("kick", None)] + ov("post_send") + ov("pre_execute") + [("task", None)]
+            if arg in ("fail", "nores"):
+                exp += ov("on_error")
+            exp += ov("post_execute")
+            if arg != "nores":
+                exp += ov("post_save")
+            if log != exp:
+                out.add("C10.b" if log[: len(ov("pre_send")) + 1 + len(ov("post_send"))] == exp[: len(ov("pre_send")) + 1 + len(ov("post_send"))] else "C10.a",
+                        f"message #{nmsg} ({arg}) with the stack {[(i, s['hooks']) for i, s in stack]} (registered in this order, "
+                        f"{sum(1 for _ in stack) - len(c['initial'])} of them while the worker was already running): hook sequence {log} != documented {exp}")
+                return
+
+    asyncio.run(go())
+    out.nontrivial = late
+    out.classes = ["history"] + (["middleware_registered_after_first_message"] if late else [])
+    return out
+
+
+_parts_core10, _run_core10 = parts, run_case
+
+
+def parts(tier: str) -> List[Part]:  # type: ignore[no-redef]
+    n = 6000 if tier == "thorough" else 400
+    return _parts_core10(tier) + [Part("stack_histories", "given", shards=2, examples=n, strategy=history_cases, soft_deadline_s=900 if tier == "thorough" else 100)]
+
+
+def run_case(case: Dict[str, Any]) -> Outcome:  # type: ignore[no-redef]
+    return run_history(case) if case.get("history") else _run_core10(case)
